@@ -313,7 +313,9 @@ impl TensorWal {
                 Err(e) if e.kind() == io::ErrorKind::UnexpectedEof => break,
                 Err(e) => return Err(e),
             }
-            let len = u64::from(u32::from_le_bytes([header[0], header[1], header[2], header[3]]));
+            let len = u64::from(u32::from_le_bytes([
+                header[0], header[1], header[2], header[3],
+            ]));
             if valid_len + 8 + len > total {
                 break; // payload incomplete
             }
